@@ -7,6 +7,13 @@ V = os.path.dirname(os.path.dirname(os.path.abspath(__file__)))
 props = [json.loads(l) for l in open(os.path.join(V, "properties.jsonl"))]
 
 CLAIMED = {
+    "C13": dict(
+        technique="static analysis: MIR scan for LocatedSpan constructions (resolved callee + generics) judged by syntactic context; syn provenance rules for span flow and 0/1-based units",
+        text="Decides on /repo's current source that located positions cannot be corrupted structurally: a LocatedSpan is wrapped only at the parser entry (other constructions are value-only), every from_range takes an earlier and a later remaining input of the same parse, "
+        "each located Error/warning stores the span of the construct it names, and 1-based vs 0-based line/column accessors go to the right slots of the renderer. Does not decide nom_locate's arithmetic, byte-vs-character columns, or which statement a parse error is attributed to.",
+        note="trusted: nom_locate's documented offset-based line/column; rustc's callee resolution; syn's parse",
+        design="5/C13",
+    ),
     "C10": dict(
         technique="static analysis: MIR taint-free argument (resolved receiver types of every hash-container iteration, ambient-input call scan) + dependency-source facts; positive control crate",
         text="Decides, for all grammars, that the shipped code iterates no container whose order is seeded per process and reads no clock/environment/pid/rng/address, by classifying every iteration-like call reachable from main by its fully resolved receiver type "
@@ -92,7 +99,7 @@ m = {
         "add_only": True,
     },
     "engines": [
-        {"name": "M mirfacts", "path": "tools/mirfacts", "serves_properties": ["C06", "C10"], "kind_free_text": "rustc_private driver (RUSTC_WORKSPACE_WRAPPER under cargo +nightly check through tools/shim/rustc): MIR CFG, resolved callees, assert kinds, types; analyses in vlib/mir.py, vlib/rules_panic.py"},
+        {"name": "M mirfacts", "path": "tools/mirfacts", "serves_properties": ["C06", "C10", "C13"], "kind_free_text": "rustc_private driver (RUSTC_WORKSPACE_WRAPPER under cargo +nightly check through tools/shim/rustc): MIR CFG, resolved callees, assert kinds, types; analyses in vlib/mir.py, vlib/rules_panic.py"},
         {"name": "S srcfacts", "path": "tools/srcfacts", "serves_properties": sorted(CLAIMED), "kind_free_text": "syn 2 syntax-tree dump (JSON) of /repo/src/*.rs; provenance resolver and rules in vlib/*.py"},
     ],
     "checks": checks,
